@@ -284,8 +284,9 @@ def spec_sl2_iso(draw, n, shape, dmax):
 @st.composite
 def spec_reflection_across(draw, n, shape, dmax):
     cnt = gen.prod(shape)
-    via = draw(st.sampled_from(["hyperplane", "hyperplane", "subspace"]))
+    via = draw(st.sampled_from(["hyperplane", "hyperplane", "subspace", "hyperplane_rows"]))
     d = dict(ctor="reflection_across", n=n, shape=shape, via=via,
+             rowscale=[draw(st.sampled_from([3.0, 0.5, -2.0, 7.5])) for _ in range(max(cnt, 1))],
              normals=draw(_normals(n, cnt, min(dmax, 1.8))))
     if via == "subspace":
         if cnt and draw(st.integers(0, 3)) == 0:      # a wall through the origin
@@ -402,7 +403,7 @@ def spec_coxeter(draw, n, shape, dmax, maxword=8):
     word = draw(st.lists(st.integers(0, rank - 1), min_size=0, max_size=maxword))
     return dict(ctor="coxeter_hyperbolic_rep", n=n, shape=[], cox=cox, via=via,
                 style=draw(st.sampled_from(["alpha", "alphanum"])), word=word,
-                automaton=draw(st.booleans()),
+                automaton=draw(st.booleans()), prior_cartan=draw(st.booleans()),
                 extra_words=draw(st.lists(st.lists(st.integers(0, rank - 1), max_size=4),
                                           min_size=1, max_size=3)))
 
@@ -746,9 +747,16 @@ def build(spec):
             ["det=-1"] if np.any(dets < 0) else []) + (["list-arg"] if spec["as_list"] else []))
     if ctor == "reflection_across":
         lab.append("via=" + spec["via"])
-        if spec["via"] == "hyperplane":
+        if spec["via"] in ("hyperplane", "hyperplane_rows"):
             V = _normal_array(spec["normals"], n, shape)
             Hp = Hyperplane(V.copy())
+            if spec["via"] == "hyperplane_rows":
+                # the same walls given by their full stored rows (normal + ideal basis),
+                # rescaled wall by wall: explicit hyperplane data whose normal is not a unit
+                # vector
+                k = np.array(spec.get("rowscale", [3.0])[:max(gen.prod(shape), 1)],
+                             dtype=float).reshape(tuple(shape) + (1, 1))
+                Hp = Hyperplane(np.array(Hp.proj_data) * k)
             T = Hp.reflection_across()
             worst = max(math.cosh(2 * nparts(e)[1]) for e in spec["normals"])
             return Built(T, n, shape, ctor, cond=worst, labels=lab)
@@ -765,6 +773,18 @@ def build(spec):
             raise HarnessError("Coxeter matrix outside the domain: signature %r"
                                % ((pos, neg, zero, mineig),))
         G, names = build_coxeter(spec)
+        if spec.get("prior_cartan") and np.any(np.array(G.coxeter_matrix) <= 0):
+            # the same group object has already produced a Cartan matrix / Tits-Vinberg
+            # representation with free (non-symmetric) parameters on its infinite bonds
+            lab.append("group-object-used-before")
+            lm = np.array(G.coxeter_matrix)
+            params = {}
+            for (i, j) in zip(*np.nonzero(lm <= 0)):
+                if i < j:
+                    params[(int(i), int(j))] = -4.0
+                    params[(int(j), int(i))] = -1.5
+            G.cartan_matrix(params)
+            G.tits_vinberg_rep(params)
         rep = G.hyperbolic_rep()
         word = [names[i] for i in spec["word"]]
         simple = all(len(x) == 1 for x in names)
